@@ -1,6 +1,7 @@
 package main
 
 import (
+	"time"
 	"flag"
 	"fmt"
 	"os"
@@ -69,7 +70,9 @@ func cmdDump(args []string) int {
 		if !match {
 			continue
 		}
+		tv := time.Now()
 		fr := w.verifyFunction(c)
+		fmt.Fprintf(os.Stderr, "generated %s: %d obligations in %.1fs\n", fr.Fn, len(fr.Obls), time.Since(tv).Seconds())
 		frs = append(frs, fr)
 		if fr.Outside != "" {
 			fmt.Printf("OUTSIDE-SUBSET %s: %s\n", fr.Fn, fr.Outside)
@@ -126,12 +129,14 @@ func cmdDump(args []string) int {
 	if *smt != "" {
 		return 0
 	}
+	td := time.Now()
 	dischargeAll(items, *timeout, 16)
+	fmt.Fprintf(os.Stderr, "discharged in %.1fs\n", time.Since(td).Seconds())
 	sort.SliceStable(items, func(i, j int) bool { return items[i].o.Fn < items[j].o.Fn })
 	bad := 0
 	for _, it := range items {
 		o := it.o
-		ok := o.Status == o.Expect || (o.Expect == "sat" && o.Status == "unknown")
+		ok := oblOK(o)
 		mark := "ok  "
 		if !ok {
 			mark = "FAIL"
